@@ -29,10 +29,14 @@ Definition run_case (c : case) : bool * bool :=
        | Panic => false
        end,
        (* from the property text: a well-formed message is parsed and judged
-          valid; a message judged valid breaks none of the constraints *)
+          valid; a message judged valid breaks none of the constraints: its
+          text has the label, arity, member names and JSON types of NIP-01
+          and its decoded events and filters satisfy the value constraints *)
        negb panicked &&
        (if wf_json_cmsg esc j then parsed && valid else true) &&
-       (if parsed && valid then match v with Some m => constraintsb m | None => false end else true))
+       (if parsed && valid
+        then struct_cmsg j && match v with Some m => constraintsb m | None => false end
+        else true))
   | CAdmitRaw parsed panicked =>
       (negb parsed && negb panicked, negb panicked)
   | CValid m valid panicked =>
